@@ -38,7 +38,7 @@ type c09ref struct {
 var c09hosts = []string{"example.com", "sub.example.org", "a.b.c.example.net", "www.site-1.example"}
 var c09segs = []string{"a", "b", "cc", "x1", "img.png", "a.b", "index.html", "~u", "a-b", "A", "v2"}
 var c09keys = []string{"k", "q", "a", "id", "k", "page"}
-var c09vals = []string{"1", "v", "", "x.y", "2", "v"}
+var c09vals = []string{"1", "v", "", "x.y", "2", "v", "%2541", "x%2By", "%26%3D", "100%25"} // the last ones: literal percent signs, plus, ampersand and equals inside a value, in their canonical escaping
 
 func c09query(r *rand.Rand) [][]string {
 	n := r.Intn(4)
@@ -277,8 +277,10 @@ func c09(args []string) error {
 		if ref.HasQ && ref.Kind != "empty" {
 			text += "?" + c09renderQuery(r, ref.Query)
 		}
-		if r.Intn(4) == 0 {
+		if k := r.Intn(6); k == 0 {
 			text += "#frag" + fmt.Sprint(r.Intn(9))
+		} else if k == 1 {
+			text += "#" // an empty fragment
 		}
 		if ref.Kind == "empty" && text == "" {
 			text = "#top"
@@ -313,7 +315,7 @@ func c09(args []string) error {
 	// ---- the links of one page are normalised against ONE parent object, one after the other: the result must not
 	// depend on what was normalised before (first each reference with a fresh parent, then the same ones in a shuffled
 	// order against the shared object; the monitor compares by (text, parent))
-	pageRefs := []string{"/abs/x.css?v=1", "img.png", "../up/a.js", "?page=2", "//cdn.example.org/lib.js", "./here/i.gif", "/", "deep/er/f.woff", "http://example.com/z?b=2&a=1", "#top"}
+	pageRefs := []string{"/abs/x.css?v=1", "img.png", "../up/a.js", "?page=2", "//cdn.example.org/lib.js", "./here/i.gif", "/", "deep/er/f.woff", "http://example.com/z?b=2&a=1", "#top", "#", "other.html#", "?q=1&q=2#", "/r?a=%2541&b=%252541"}
 	for i := 0; i < 40 && i < len(corpus); i++ {
 		baseText := corpus[(i*7)%len(corpus)][1]
 		if baseText == "" || c09parent(baseText) == nil {
